@@ -694,6 +694,9 @@ func (e *chainEnv) build(encOff bool) (c *restful.Container, outer *restful.Cont
 				r, _ := e.res()
 				e.appWrite(rw, fbytes("outer", r.ID, cfg.OuterPrefix))
 				c.ServeHTTP(rw, hr)
+				if f, ok := rw.(http.Flusher); ok && cfg.OuterPrefix%2 == 0 {
+					f.Flush() // a streaming middleware pushes out what the inner handler left behind
+				}
 			})
 		}
 		if cfg.Entry == "Nested" {
